@@ -51,6 +51,25 @@ SessionStep(s, e, elapsed, T) ==
   IF T[s + 1] # 0 /\ elapsed > T[s + 1] THEN {Nascent, SessNext(Nascent, e)}
   ELSE {SessNext(s, e)}
 
+(* ------------------------------------------------------------ enumeration engine (beyond the listed properties) *)
+(* the transition table of switch_state_enumeration AS CODED: 0 Quiescent, 1 Pausing, 2 Wait;             *)
+(* events 0 table complete, 1 table not complete, 2 Hello, 3 new session.  No timeouts are applied.        *)
+EnumComplete == 0  EnumNotComplete == 1  EnumHello == 2  EnumNewSession == 3
+EnumNext(s, e) ==
+  CASE s = 0 /\ e \in {EnumNotComplete, EnumNewSession} -> 1
+    [] s = 1 /\ e = EnumComplete -> 2
+    [] s = 2 /\ e \in {EnumNotComplete, EnumNewSession} -> 1
+    [] s = 2 /\ e = EnumComplete -> 0
+    [] OTHER -> s
+
+(* the same table as DOCUMENTED (Documentation/lltd_automata_specification.md, transitions 0-11), with the  *)
+(* "new session" trigger split by whether that session is already complete                                *)
+EnumDoc(s, e, newComplete) ==
+  CASE s = 0 /\ e = EnumNewSession -> (IF newComplete THEN 2 ELSE 1)       \* 0, 2
+    [] s = 1 /\ e = EnumComplete -> 2                                      \* 1
+    [] s = 2 /\ e = EnumNewSession -> (IF newComplete THEN 2 ELSE 1)       \* 8, 9
+    [] OTHER -> s                                                          \* 3-7 stay in Pausing; 10, 11 are the tick's table-empty rule
+
 (* ------------------------------------------------------------ C16: session table *)
 (* dictionary: a set of entries [key, gen, complete, last]; at most one per (key, gen), <= Cap *)
 TableCap == 16
